@@ -113,6 +113,38 @@ def _warm_start(S):
             return o
         P.run_contract(S, 'WarmStart.warm_start_increment[index=%s]' % ('default' if index is None else index), run_, [], post,
                        file=info['file'], gram=False)
+    # the variant used inside differentiated solves: same linear system for the boundary-condition slot (pNew is that slot's new value)
+    P.SPACE[0] = P.GramSpace()
+    obj = PObj()
+    x = P.AVec.atom('x')
+    pold = Params('p_old')
+    pnew0 = P.AVec.atom('p_new[0]')
+    seen2 = {}
+
+    class LinOp2:
+        def __init__(self, shape, matvec=None):
+            self.shape, self.matvec = shape, matvec
+
+    def cg_stub2(A, b, M=None, callback=None, **kw):
+        seen2['A'], seen2['b'], seen2['M'] = A, b, M
+        return P.AVec.atom('dx_cg'), 0
+    ns['LinearOperator'] = LinOp2
+    ns['cg'] = cg_stub2
+
+    def run2():
+        P.cur().ghost['obj.p'] = pold
+        return ns['warm_start_increment_jax_safe'](obj, x, pnew0)
+
+    def post2(r, ctx):
+        o = OD()
+        o['right_hand_side_is_parameter_jacobian_times_old_minus_new'] = tm.and_(*seen2['b'].same_as(obj.jacobian_p_vec(x, pold[0] - pnew0)))
+        v = P.AVec.atom('v_test')
+        o['operator_is_hessian_at_current_point_and_old_parameters'] = tm.and_(*seen2['A'].matvec(v).same_as(obj.hessian_vec(x, v)))
+        o['preconditioner_is_objective_preconditioner'] = tm.and_(*seen2['M'].matvec(v).same_as(obj.apply_precond(v)))
+        o['returns_linear_solve_result'] = tm.and_(*r.same_as(P.AVec.atom('dx_cg')))
+        o['parameters_untouched_during_warm_start'] = tm.TRUE if not ctx.ghost.get('obj.p.writes') else tm.FALSE
+        return o
+    P.run_contract(S, 'WarmStart.warm_start_increment_jax_safe', run2, [], post2, file=info['file'], gram=False)
     # every other slot raises
     for index in (1, 3, 4, 5):
         P.SPACE[0] = P.GramSpace()
